@@ -8,7 +8,7 @@ use crate::engine::{Run, V};
 use crate::gens::value::TV;
 use crate::vrlx::{self, End};
 
-pub const RULE: &str = "cases = programs made of a *definition* (a variable `v`, or a field `x.a` of an object variable, assigned a literal or constant arithmetic: non-zero integers, floats, booleans, enum strings), 0..3 *perturbations* between definition and use (conditional reassignment in one branch, unconditional reassignment, reassignment from an event field, reassignment inside a closure body, `del(x.a)`, `x |= {...}` / `merge`, infallible assignment onto the variable, shadowing by a closure parameter of the same name, reassignment inside a block, copying through another variable, assignment in both branches) and a *probe* that the compiler accepts only because it believes the value constant: `10 / V` without error handling, `V || <effect>` / `V && <effect>`, an enum-only argument fed by the variable (`to_unix_timestamp(t, unit: V)`, `encode_base64(s, charset: V)`, `format_int(n, V)` is not enum-only and serves as control). Two-pass metamorphic oracle with public API only: pass 1 runs the accepted program, which records the runtime value r of V right before the probe; it must not end in a runtime error. Pass 2 compiles the same program with V in the probe replaced by the literal of r: it must be accepted too and produce the same outcome, result field and effects. Non-trivial = the probe was accepted and at least one perturbation sits between definition and probe. Distinct = distinct serialised cases.";
+pub const RULE: &str = "cases = programs made of a *definition* (a variable `v`, or a field `x.a` of an object variable, assigned a literal or constant arithmetic: non-zero integers, floats, booleans, enum strings), 0..3 *perturbations* between definition and use (conditional reassignment in one branch, unconditional reassignment, reassignment from an event field, reassignment inside a closure body, `del(x.a)`, `x |= {...}` / `merge`, infallible assignment onto the variable, shadowing by a closure parameter of the same name, reassignment inside a block, copying through another variable, assignment in both branches) and a *probe* that the compiler accepts only because it believes the value constant: `10 / V` without error handling (also with a dividend block that reassigns V first: `{ V = c; 10 } / V`), `V || <effect>` / `V && <effect>`, an enum-only argument fed by the variable (`to_unix_timestamp(t, unit: V)`, `encode_base64(s, charset: V)`, `format_int(n, V)` is not enum-only and serves as control). Two-pass metamorphic oracle with public API only: pass 1 runs the accepted program, which records the runtime value r of V right before the probe; it must not end in a runtime error. Pass 2 compiles the same program with V in the probe replaced by the literal of r: it must be accepted too and produce the same outcome, result field and effects. Non-trivial = the probe was accepted and at least one perturbation sits between definition and probe. Distinct = distinct serialised cases.";
 pub const NOTE: &str = "decides constant knowledge through its observable consequences only (accepted infallible division, short-circuit typing, enum-only arguments); perturbation classes with open known findings (closure-body reassignment, del on variable paths) are excluded by generator switches";
 
 #[derive(Clone, Copy, Debug, Serialize, Deserialize, PartialEq)]
@@ -38,6 +38,8 @@ pub enum Pert {
 
 #[derive(Clone, Copy, Debug, Serialize, Deserialize, PartialEq)]
 pub enum Probe {
+    /// `{ V = <other constant>; 10 } / V`: the dividend's block reassigns the divisor
+    DivAfterLhsEffect,
     Div,
     DivNested,
     Or,
@@ -116,9 +118,15 @@ fn setup_src(c: &Case) -> Option<String> {
     Some(s)
 }
 
+/// probe whose left operand reassigns the variable that the right operand reads
+fn probe_src_lhs(target: &str, other: &TV, operand: &str) -> String {
+    format!(".r = {{ {target} = {}; 10 }} / {operand}\n", lit(other))
+}
+
 fn probe_src(p: Probe, operand: &str) -> String {
     match p {
         Probe::Div => format!(".r = 10 / {operand}\n"),
+        Probe::DivAfterLhsEffect => unreachable!("built by probe_src_lhs"),
         Probe::DivNested => format!(".r = [(10 / {operand}) + 1, 3]\n"),
         Probe::Or => format!(".r = ({operand} || {{ .eff = 1; true }})\n"),
         Probe::And => format!(".r = ({operand} && {{ .eff = 1; true }})\n"),
@@ -145,7 +153,17 @@ pub fn check(c: &Case, fl: Flags) -> V {
     }
     let Some(setup) = setup_src(c) else { return V::discard("perturbation_not_applicable_to_shape") };
     let t = target(c.shape);
-    let src1 = format!("{setup}.__v = {t}\n{}", probe_src(c.probe, t));
+    let lhs_other = TV::Int(if c.flag { 0 } else { 4 });
+    let build = |operand: &str| {
+        if c.probe == Probe::DivAfterLhsEffect {
+            probe_src_lhs(t, &lhs_other, operand)
+        } else {
+            probe_src(c.probe, operand)
+        }
+    };
+    // for the lhs-effect probe the value that matters is the one the divisor has when it is read
+    let record = if c.probe == Probe::DivAfterLhsEffect { String::new() } else { format!(".__v = {t}\n") };
+    let src1 = format!("{setup}{record}{}", build(t));
     let event = vrlx::event_of(&[("flag", &TV::Bool(c.flag)), ("n", &c.n)]);
     let res1 = match vrlx::compile(&src1) {
         Ok(r) => r,
@@ -159,9 +177,16 @@ pub fn check(c: &Case, fl: Flags) -> V {
         return V::pass().class("nan_exempt");
     }
     let vpath = parse_value_path("__v").expect("path");
-    let Some(r) = out1.event.get(&vpath).map(TV::from_value) else { return V::fail(format!("probe value missing\n{src1}")) };
+    let r = if c.probe == Probe::DivAfterLhsEffect {
+        lhs_other.clone()
+    } else {
+        match out1.event.get(&vpath).map(TV::from_value) {
+            Some(r) => r,
+            None => return V::fail(format!("probe value missing\n{src1}")),
+        }
+    };
     let Some(rlit) = vrlx::literal(&r) else { return V::discard("runtime_value_has_no_literal") };
-    let src2 = format!("{setup}.__v = {t}\n{}", probe_src(c.probe, &rlit));
+    let src2 = format!("{setup}{record}{}", build(&rlit));
     let res2 = match vrlx::compile(&src2) {
         Ok(r) => r,
         Err(d) => {
@@ -183,6 +208,7 @@ pub fn check(c: &Case, fl: Flags) -> V {
         .class("probe_accepted")
         .class(match c.probe {
             Probe::Div | Probe::DivNested => "probe_division",
+            Probe::DivAfterLhsEffect => "probe_division_after_lhs_effect",
             Probe::Or | Probe::And => "probe_short_circuit",
             Probe::UnixUnit | Probe::Base64Charset => "probe_enum_argument",
             Probe::Control => "probe_control",
@@ -194,7 +220,7 @@ pub fn check(c: &Case, fl: Flags) -> V {
 
 fn const_for(probe: Probe) -> BoxedStrategy<TV> {
     match probe {
-        Probe::Div | Probe::DivNested | Probe::Control => prop_oneof![
+        Probe::Div | Probe::DivNested | Probe::DivAfterLhsEffect | Probe::Control => prop_oneof![
             3 => prop_oneof![Just(1i64), Just(2), Just(-3), Just(7), Just(0), Just(i64::MAX)].prop_map(TV::Int),
             1 => prop_oneof![Just(0.5f64), Just(2.0), Just(0.0), Just(-1.5)].prop_map(TV::float),
         ]
@@ -228,6 +254,7 @@ fn pert(probe: Probe) -> BoxedStrategy<Pert> {
 fn case() -> impl Strategy<Value = Case> {
     let probe = prop_oneof![
         3 => Just(Probe::Div),
+        2 => Just(Probe::DivAfterLhsEffect),
         1 => Just(Probe::DivNested),
         2 => Just(Probe::Or),
         2 => Just(Probe::And),
